@@ -7,6 +7,7 @@ import (
 	"math/big"
 	"net/http"
 	"strings"
+	"sync"
 	"time"
 
 	corecrl "github.com/notaryproject/notation-core-go/revocation/crl"
@@ -21,10 +22,11 @@ const (
 	OpPublish
 	OpRestart
 	OpTearCache
+	OpFetchConc // 2..3 overlapping Fetch calls on the one fetcher (own caller each)
 	nC18Ops
 )
 
-var c18OpNames = []string{"fetch", "advance_clock", "publish", "restart", "tear_cache"}
+var c18OpNames = []string{"fetch", "advance_clock", "publish", "restart", "tear_cache", "fetch_concurrently"}
 
 // Advance kinds.
 const (
@@ -59,10 +61,16 @@ type c18Op struct {
 	PubBase, PubDelta bool
 	// tear
 	TearKind int // 0 old delta with current base, 1 drop delta, 2 old base with current delta
+	// concurrent group: every member is a fetch plan of its own; StartMs is the
+	// member's start offset, PubAtMs >= 0 a publication in the middle of the group
+	Conc    []c18Op
+	StartMs int
+	PubAtMs int
 }
 
 type c18Scenario struct {
 	NoCache     bool
+	CtxAware    bool // the cache refuses operations whose context is done
 	WrapMiss    bool
 	Discard     bool
 	URLKind     int
@@ -109,47 +117,39 @@ func genC18(t *Tape, hostile bool) *c18Scenario {
 	sc.BaseValidS = []int{3600, 86400, 600, 0, 7 * 86400}[t.Weighted(35, 30, 15, 10, 10)]
 	sc.DeltaValidS = []int{600, 3600, 60, 0, 86400}[t.Weighted(35, 30, 15, 8, 12)]
 	sc.Timeout = []time.Duration{5 * time.Second, 0, time.Second}[t.Weighted(60, 20, 20)]
+	sc.CtxAware = t.Bool(40)
 	n := 1 + t.Weighted(10, 20, 20, 15, 12, 10, 8, 5)
 	for i := 0; i < n; i++ {
 		op := c18Op{}
-		op.Kind = t.Weighted(50, 22, 14, 7, 7)
+		op.Kind = t.Weighted(50, 22, 14, 7, 7, 14)
 		if i == 0 {
 			op.Kind = OpFetch
 		}
 		switch op.Kind {
 		case OpFetch:
-			faulty := t.Bool(40)
-			genF := func() Fault {
-				if !faulty || !t.Bool(50) {
-					return Fault{}
+			genFetchPlan(t, sc, &op, hostile)
+		case OpFetchConc:
+			n := 2 + t.Weighted(70, 30)
+			for k := 0; k < n; k++ {
+				m := c18Op{Kind: OpFetch}
+				genFetchPlan(t, sc, &m, hostile)
+				if k > 0 {
+					// most members start while an earlier one is still busy
+					m.StartMs = []int{0, 1, 50, 700, 2500}[t.Weighted(25, 15, 25, 20, 15)] + t.Choose(40)
 				}
-				k := []int{FConnErr, FStall, FStatus, FRedirect, FEmpty, FTruncate, FBodyErr, FBodyStall, FGarbage, FLyingCL}[t.Choose(10)]
-				if hostile && t.Bool(4) {
-					// 32 MiB bodies cost ~40 ms each: rare
-					k = FOversize + t.Choose(2)
-				}
-				f := Fault{Kind: k}
-				switch k {
-				case FStatus:
-					f.Param = []int{404, 500, 503, 204, 301}[t.Choose(5)]
-				case FTruncate:
-					f.Param = []int{500, 0, 999, 10}[t.Choose(4)]
-				case FBodyStall:
-					f.Param = []int{100, 1500, 10000}[t.Choose(3)]
-				}
-				return f
+				op.Conc = append(op.Conc, m)
 			}
-			op.BaseFault = genF()
-			op.BaseLat = time.Duration(1+t.Choose(3000)) * time.Millisecond
-			for j := 0; j < sc.NDelta; j++ {
-				op.DeltaFault = append(op.DeltaFault, genF())
-				op.DeltaLat = append(op.DeltaLat, time.Duration(1+t.Choose(3000))*time.Millisecond)
-			}
-			op.GetPlan = t.Weighted(80, 12, 8)
-			op.SetPlan = t.Weighted(80, 12, 8)
-			if t.Bool(10) {
-				op.CancelKind = 1 + t.Choose(4) // 1 before, 2 after CancelMs, 3 when the base body is closed, 4 when the first delta body is closed
-				op.CancelMs = t.Choose(4000)
+			op.PubAtMs = -1
+			if t.Bool(30) {
+				op.PubAtMs = t.Choose(3000)
+				switch t.Weighted(40, 30, 30) {
+				case 0:
+					op.PubBase, op.PubDelta = true, true
+				case 1:
+					op.PubDelta = true
+				case 2:
+					op.PubBase = true
+				}
 			}
 		case OpAdvance:
 			op.Adv = t.Weighted(25, 10, 10, 10, 10, 10, 10, 15)
@@ -169,6 +169,44 @@ func genC18(t *Tape, hostile bool) *c18Scenario {
 		sc.Ops = append(sc.Ops, op)
 	}
 	return sc
+}
+
+// genFetchPlan draws the plan of one Fetch call (faults, latencies, cache
+// plans, cancellation).
+func genFetchPlan(t *Tape, sc *c18Scenario, op *c18Op, hostile bool) {
+	faulty := t.Bool(40)
+	genF := func() Fault {
+		if !faulty || !t.Bool(50) {
+			return Fault{}
+		}
+		k := []int{FConnErr, FStall, FStatus, FRedirect, FEmpty, FTruncate, FBodyErr, FBodyStall, FGarbage, FLyingCL}[t.Choose(10)]
+		if hostile && t.Bool(4) {
+			// 32 MiB bodies cost ~40 ms each: rare
+			k = FOversize + t.Choose(2)
+		}
+		f := Fault{Kind: k}
+		switch k {
+		case FStatus:
+			f.Param = []int{404, 500, 503, 204, 301}[t.Choose(5)]
+		case FTruncate:
+			f.Param = []int{500, 0, 999, 10}[t.Choose(4)]
+		case FBodyStall:
+			f.Param = []int{100, 1500, 10000}[t.Choose(3)]
+		}
+		return f
+	}
+	op.BaseFault = genF()
+	op.BaseLat = time.Duration(1+t.Choose(3000)) * time.Millisecond
+	for j := 0; j < sc.NDelta; j++ {
+		op.DeltaFault = append(op.DeltaFault, genF())
+		op.DeltaLat = append(op.DeltaLat, time.Duration(1+t.Choose(3000))*time.Millisecond)
+	}
+	op.GetPlan = t.Weighted(80, 12, 8)
+	op.SetPlan = t.Weighted(80, 12, 8)
+	if t.Bool(10) {
+		op.CancelKind = 1 + t.Choose(4) // 1 before, 2 after CancelMs, 3 when the base body is closed, 4 when the first delta body is closed
+		op.CancelMs = t.Choose(4000)
+	}
 }
 
 func (w *c18World) hasURIs() ([]string, bool) {
@@ -235,7 +273,11 @@ type c18FetchObs struct {
 	GetPlan  int
 	SetPlan  int
 	Cancel   int
-	Schemes  []string // schemes of every request made during this call
+	Schemes  []string       // schemes of every request made during this call
+	Caller   int            // 0 = sequential caller; 1.. = member of a concurrent group
+	Group    int            // index of the concurrent operation (0 = none; operation 0 is always a plain fetch)
+	Peers    []*c18FetchObs // every member of the group, this one included
+	finish   func()
 }
 
 type c18Obs struct {
@@ -275,12 +317,14 @@ func (sc *c18Scenario) exec(obs *c18Obs) {
 	}
 	w.publish(true, true, time.Now())
 	nt := NewNet()
-	var schemes []string
+	schemesBy := make([][]string, 5) // per caller: each caller appends to its own element only
 	cache := NewSimCache()
 	cache.WrapMiss = sc.WrapMiss
+	cache.CtxAware = sc.CtxAware
 	cache.Declare(w.baseURL)
 	client := &http.Client{Transport: roundTripFunc(func(req *http.Request) (*http.Response, error) {
-		schemes = append(schemes, req.URL.Scheme+"://"+req.URL.Host)
+		k := callerOf(req.Context())
+		schemesBy[k] = append(schemesBy[k], req.URL.Scheme+"://"+req.URL.Host)
 		return nt.RoundTrip(req)
 	})}
 	if sc.Timeout > 0 {
@@ -304,6 +348,111 @@ func (sc *c18Scenario) exec(obs *c18Obs) {
 	}
 	logf := func(f string, a ...any) {
 		obs.Log = append(obs.Log, fmt.Sprintf("t=%s ", rel(time.Now()))+fmt.Sprintf(f, a...))
+	}
+	var wmu sync.Mutex // publications in the middle of a concurrent group
+	cancels := make([]context.CancelFunc, 5)
+	nt.OnClose = func(x *Exchange) {
+		if x.CancelOnClose {
+			x.Rec.CancelledHere = true
+			if c := cancels[x.Rec.CallerID]; c != nil {
+				c()
+			}
+		}
+	}
+	// planFetch plans one Fetch call of the given caller (0 = the sequential
+	// caller) and returns its record together with the function that performs it.
+	planFetch := func(key, oi int, op c18Op, live bool) (*c18FetchObs, func()) {
+		fo := &c18FetchObs{OpIdx: oi, Caller: key, Discard: sc.Discard, NoCache: sc.NoCache, GetPlan: op.GetPlan, SetPlan: op.SetPlan, Cancel: op.CancelKind}
+		obs.Fetches = append(obs.Fetches, fo)
+		// plan this call's exchanges; a sequential call is served the publication
+		// current at its start, a member of a concurrent group the one current
+		// when the request is answered
+		pub := w.cur
+		curPub := func() c18Pub {
+			if !live {
+				return pub
+			}
+			wmu.Lock()
+			defer wmu.Unlock()
+			return w.cur
+		}
+		fo.XBase = nt.Plan(key, &Exchange{URL: w.baseURL, Kind: "crl", Latency: op.BaseLat, Fault: op.BaseFault, ReadCap: crlReadCap,
+			Serve: func(x *Exchange, req *http.Request, body []byte, now time.Time) ([]byte, string) {
+				p := curPub()
+				x.Rec.Served = &CRLServed{Spec: p.base}
+				return p.base.DER, "application/pkix-crl"
+			}})
+		for j, du := range w.dURLs {
+			fo.XDelta = append(fo.XDelta, nt.Plan(key, &Exchange{URL: du, Kind: "delta", SrcIdx: j, Latency: op.DeltaLat[j], Fault: op.DeltaFault[j], ReadCap: crlReadCap,
+				Serve: func(x *Exchange, req *http.Request, body []byte, now time.Time) ([]byte, string) {
+					d := curPub().deltas[x.SrcIdx]
+					x.Rec.Served = &CRLServed{Spec: d}
+					return d.DER, "application/pkix-crl"
+				}}))
+		}
+		e := cache.ent(w.baseURL)
+		if key <= 1 {
+			e.gets, e.sets = nil, nil
+			e.GetPlanBy, e.SetPlanBy = map[int][]int{}, map[int][]int{}
+		}
+		e.GetPlanBy[key], e.SetPlanBy[key] = []int{op.GetPlan}, []int{op.SetPlan}
+		nOps := len(e.Ops)
+		ctx, cancel := context.WithCancel(WithCaller(context.Background(), key))
+		cancels[key] = cancel
+		switch op.CancelKind {
+		case 3:
+			fo.XBase.CancelOnClose = true
+		case 4:
+			if len(fo.XDelta) > 0 {
+				fo.XDelta[0].CancelOnClose = true
+			}
+		}
+		fo.finish = func() {
+			fo.CacheOps = nil
+			for _, o := range e.Ops[nOps:] {
+				if o.Caller == key {
+					fo.CacheOps = append(fo.CacheOps, o)
+				}
+			}
+			fo.Schemes = schemesBy[key]
+		}
+		run := func() {
+			switch op.CancelKind {
+			case 1:
+				cancel()
+			case 2:
+				off := cancelOffset
+				if live {
+					// relative to this member's start, which sits key x 50 us off the
+					// millisecond: land on the +250 us lattice all the same
+					off -= time.Duration(key) * 50 * time.Microsecond
+				}
+				time.AfterFunc(time.Duration(op.CancelMs)*time.Millisecond+off, cancel)
+			}
+			schemesBy[key] = nil
+			fo.TStart = time.Now()
+			func() {
+				defer func() {
+					if r := recover(); r != nil {
+						fo.Panicked, fo.PanicVal = true, r
+					}
+				}()
+				b, err := fetcher.Fetch(ctx, w.baseURL)
+				fo.Err = err
+				if err == nil {
+					fo.Base, fo.Delta = bundleHashes(b)
+					if b == nil {
+						fo.Base = "<nil bundle>"
+					}
+				}
+			}()
+			fo.TReturn, fo.Returned = time.Now(), true
+			cancel()
+			if !live {
+				fo.finish()
+			}
+		}
+		return fo, run
 	}
 	for oi, op := range sc.Ops {
 		switch op.Kind {
@@ -356,70 +505,57 @@ func (sc *c18Scenario) exec(obs *c18Obs) {
 			cache.Seed(w.baseURL, nb)
 			logf("tear_cache kind=%d", op.TearKind)
 		case OpFetch:
-			fo := &c18FetchObs{OpIdx: oi, Discard: sc.Discard, NoCache: sc.NoCache, GetPlan: op.GetPlan, SetPlan: op.SetPlan, Cancel: op.CancelKind}
-			obs.Fetches = append(obs.Fetches, fo)
-			// plan this call's exchanges
-			pub := w.cur
-			fo.XBase = nt.Plan(0, &Exchange{URL: w.baseURL, Kind: "crl", Latency: op.BaseLat, Fault: op.BaseFault, ReadCap: crlReadCap,
-				Serve: func(x *Exchange, req *http.Request, body []byte, now time.Time) ([]byte, string) {
-					x.Rec.Served = &CRLServed{Spec: pub.base}
-					return pub.base.DER, "application/pkix-crl"
-				}})
-			for j, du := range w.dURLs {
-				fo.XDelta = append(fo.XDelta, nt.Plan(0, &Exchange{URL: du, Kind: "delta", SrcIdx: j, Latency: op.DeltaLat[j], Fault: op.DeltaFault[j], ReadCap: crlReadCap,
-					Serve: func(x *Exchange, req *http.Request, body []byte, now time.Time) ([]byte, string) {
-						d := pub.deltas[x.SrcIdx]
-						x.Rec.Served = &CRLServed{Spec: d}
-						return d.DER, "application/pkix-crl"
-					}}))
-			}
-			e := cache.ent(w.baseURL)
-			e.gets, e.sets = nil, nil
-			e.GetPlan, e.SetPlan = []int{op.GetPlan}, []int{op.SetPlan}
-			nOps := len(e.Ops)
-			ctx, cancel := context.WithCancel(context.Background())
-			switch op.CancelKind {
-			case 1:
-				cancel()
-			case 2:
-				time.AfterFunc(time.Duration(op.CancelMs)*time.Millisecond+cancelOffset, cancel)
-			case 3:
-				fo.XBase.CancelOnClose = true
-			case 4:
-				if len(fo.XDelta) > 0 {
-					fo.XDelta[0].CancelOnClose = true
-				}
-			}
-			nt.OnClose = func(x *Exchange) {
-				if x.CancelOnClose {
-					x.Rec.CancelledHere = true
-					cancel()
-				}
-			}
-			schemes = nil
-			fo.TStart = time.Now()
-			func() {
-				defer func() {
-					if r := recover(); r != nil {
-						fo.Panicked, fo.PanicVal = true, r
-					}
-				}()
-				b, err := fetcher.Fetch(ctx, w.baseURL)
-				fo.Err = err
-				if err == nil {
-					fo.Base, fo.Delta = bundleHashes(b)
-					if b == nil {
-						fo.Base = "<nil bundle>"
-					}
-				}
-			}()
-			fo.TReturn, fo.Returned = time.Now(), true
-			cancel()
-			fo.CacheOps = append([]CacheOp(nil), e.Ops[nOps:]...)
-			fo.Schemes = schemes
+			fo, run := planFetch(0, oi, op, false)
+			run()
 			// unused planned attempts must not be consumed by a later call
 			nt.dropPending()
 			logf("fetch -> err=%v base=%s delta=%s cacheops=%v", fo.Err != nil, w.specName(fo.Base), w.specName(fo.Delta), cacheOpsDesc(w, fo.CacheOps))
+		case OpFetchConc:
+			// overlapping Fetch calls on the one fetcher. Every member has its own
+			// caller key (own slots, own cache plan, own context) and lives on its
+			// own timer sub-lattice (key x 50 us), the publisher on +200 us, timed
+			// cancellations on +250 us: no two events of the group can tie.
+			var members []*c18FetchObs
+			var runs []func()
+			for k, m := range op.Conc {
+				fo, run := planFetch(k+1, oi, m, true)
+				fo.Group = oi
+				members = append(members, fo)
+				runs = append(runs, run)
+			}
+			for _, fo := range members {
+				fo.Peers = members
+			}
+			var wg sync.WaitGroup
+			for k := range runs {
+				wg.Add(1)
+				go func(k int) {
+					defer wg.Done()
+					time.Sleep(time.Duration(op.Conc[k].StartMs)*time.Millisecond + time.Duration(k+1)*50*time.Microsecond)
+					runs[k]()
+				}(k)
+			}
+			if op.PubAtMs >= 0 {
+				wg.Add(1)
+				go func() {
+					defer wg.Done()
+					time.Sleep(time.Duration(op.PubAtMs)*time.Millisecond + 200*time.Microsecond)
+					wmu.Lock()
+					w.publish(op.PubBase, op.PubDelta, time.Now())
+					wmu.Unlock()
+					logf("publish (during the concurrent fetches) base=%v delta=%v -> base#%d delta#%d..", op.PubBase, op.PubDelta, w.cur.base.Number, w.cur.delta.Number)
+				}()
+			}
+			wg.Wait()
+			nt.dropPending()
+			for _, fo := range members {
+				fo.finish()
+				logf("fetch[caller %d, started %s] -> err=%v base=%s delta=%s cacheops=%v", fo.Caller, rel(fo.TStart), fo.Err != nil, w.specName(fo.Base), w.specName(fo.Delta), cacheOpsDesc(w, fo.CacheOps))
+			}
+			// back onto the whole-millisecond lattice
+			if d := time.Since(Epoch) % time.Millisecond; d != 0 {
+				time.Sleep(time.Millisecond - d)
+			}
 		}
 	}
 	obs.TEnd = time.Now()
@@ -491,6 +627,22 @@ func evalC18(sc *c18Scenario, obs *c18Obs, rc *ruleCtx) {
 	shapeClear := parseOK && sc.FrShape != FrNonURIThenURI
 	for _, fo := range obs.Fetches {
 		tag := fmt.Sprintf("op %d fetch", fo.OpIdx)
+		if fo.Group != 0 {
+			tag = fmt.Sprintf("op %d concurrent fetch of caller %d", fo.OpIdx, fo.Caller)
+			if fo.Caller == 1 {
+				rc.st.Probes["c18_concurrent_groups"]++
+			}
+			for _, p := range fo.Peers {
+				if p != fo && p.Returned && !p.TReturn.Before(fo.TStart) && !p.TStart.After(fo.TReturn) && fo.TReturn.After(fo.TStart) && p.TReturn.After(p.TStart) {
+					rc.st.Probes["c18_concurrent_fetches_overlapped"]++
+					break
+				}
+			}
+			if !fo.Returned {
+				rc.fail("C18.F1", "concurrent_fetch_never_returned", tag+": Fetch did not return")
+				continue
+			}
+		}
 		if fo.Panicked {
 			rc.fail("C18.F1", "panic", fmt.Sprintf("%s: Fetch panicked: %v", tag, fo.PanicVal))
 			continue
@@ -512,30 +664,67 @@ func evalC18(sc *c18Scenario, obs *c18Obs, rc *ruleCtx) {
 				rc.fail("C18.F1", "non_http_request", fmt.Sprintf("%s: a request was sent to %s (only plain HTTP is allowed)", tag, s))
 			}
 		}
-		baseSpec, baseOK := (*CRLSpec)(nil), false
-		if fo.XBase.Rec.Begun {
-			baseSpec, baseOK = crlDelivered(fo.XBase)
+		// what this call downloaded: the base CRL, and the first delta location,
+		// in order, that delivered a CRL
+		downloads := func(c *c18FetchObs) (baseSpec *CRLSpec, baseOK bool, firstDelta *CRLSpec, firstIdx int) {
+			firstIdx = -1
+			if c.XBase.Rec.Begun {
+				baseSpec, baseOK = crlDelivered(c.XBase)
+			}
+			for j := range urls {
+				if j >= len(c.XDelta) {
+					break
+				}
+				if !c.XDelta[j].Rec.Begun {
+					continue
+				}
+				if s, ok := crlDelivered(c.XDelta[j]); ok {
+					firstDelta, firstIdx = s, j
+					break
+				}
+			}
+			return
 		}
-		// the first delta location, in order, that delivered a CRL
-		var firstDelta *CRLSpec
-		firstIdx := -1
-		for j := range urls {
-			if j >= len(fo.XDelta) {
-				break
-			}
-			if !fo.XDelta[j].Rec.Begun {
-				continue
-			}
-			if s, ok := crlDelivered(fo.XDelta[j]); ok {
-				firstDelta, firstIdx = s, j
-				break
-			}
-		}
+		baseSpec, baseOK, firstDelta, firstIdx := downloads(fo)
+		src := fo // the call whose downloads explain a returned bundle
 		if fo.Err == nil {
 			// ----- F1 / F2: where does the returned bundle come from? -----
 			rc.anteTrue("C18.F1")
 			fromCache := get != nil && get.Outcome == "hit" && get.Base == fo.Base && get.Delta == fo.Delta
 			downloaded := baseOK && baseSpec.Hash == fo.Base
+			cachedStale := false
+			if fromCache {
+				if bs, ds := w.reg[fo.Base], w.reg[fo.Delta]; bs != nil && (fo.Delta == "" || ds != nil) {
+					cachedStale = freshAt(bs, fo.TReturn) == "stale" || (ds != nil && freshAt(ds, fo.TReturn) == "stale")
+				}
+			}
+			if !downloaded && (!fromCache || cachedStale) {
+				// "freshly downloaded": a fetcher may let overlapping calls for one
+				// URL share a download. The bundle must then be, as a whole, what ONE
+				// overlapping call downloaded (never a mixture of two calls' parts).
+				for _, p := range fo.Peers {
+					if p == fo || !p.Returned || p.TReturn.Before(fo.TStart) || p.TStart.After(fo.TReturn) {
+						continue
+					}
+					if bs, ok, fd, fi := downloads(p); ok && bs.Hash == fo.Base {
+						src, baseSpec, baseOK, firstDelta, firstIdx, downloaded = p, bs, ok, fd, fi, true
+						rc.st.Probes["c18_served_from_overlapping_callers_download"]++
+						break
+					}
+				}
+			}
+			if src != fo {
+				// ... "and then written to the cache": by the call that downloaded it
+				// (or by this call itself)
+				if set == nil || set.Base != fo.Base || set.Delta != fo.Delta {
+					set = nil
+					for i := range src.CacheOps {
+						if o := &src.CacheOps[i]; o.Op == "set" && !o.TEnd.After(fo.TReturn) {
+							set = o
+						}
+					}
+				}
+			}
 			switch {
 			case fromCache && !downloaded:
 				rc.anteTrue("C18.F2")
@@ -582,12 +771,12 @@ func evalC18(sc *c18Scenario, obs *c18Obs, rc *ruleCtx) {
 						// was never asked although, by the plan, it is healthy and every
 						// location advertised before it is certainly down, is the one
 						// whose answer had to be taken
-						if fo.Cancel == 0 {
+						if src.Cancel == 0 {
 							for j := range urls {
-								if j >= len(fo.XDelta) {
+								if j >= len(src.XDelta) {
 									break
 								}
-								x := fo.XDelta[j]
+								x := src.XDelta[j]
 								healthy := urlContactable(urls[j]) && (x.Fault.Kind == FNone || x.Fault.Kind == FRedirect)
 								down := !urlContactable(urls[j]) || x.Fault.Kind == FConnErr || x.Fault.Kind == FStatus || x.Fault.Kind == FEmpty || x.Fault.Kind == FTruncate || x.Fault.Kind == FBodyErr || x.Fault.Kind == FGarbage || x.Fault.Kind == FLyingCL
 								if healthy {
@@ -642,6 +831,38 @@ func evalC18(sc *c18Scenario, obs *c18Obs, rc *ruleCtx) {
 		if !urlContactable(w.baseURL) || sc.URLKind != UNormal {
 			serverHealthy = false
 		}
+		// A fetcher may let overlapping calls share one download. A member of a
+		// concurrent group may therefore fail because the download of an
+		// overlapping, *uncancelled* peer failed (the simulated server treats
+		// every request on its own), and need not have asked the server itself
+		// when such a peer did. A peer's own cancellation excuses nothing.
+		peerRequested, peerDownloadFailed := false, false
+		for _, p := range fo.Peers {
+			if p == fo || !p.Returned || p.TReturn.Before(fo.TStart) || p.TStart.After(fo.TReturn) || !p.XBase.Rec.Begun {
+				continue
+			}
+			if p.Cancel != 0 {
+				// a peer's own cancellation excuses nothing - unless its requests were
+				// demonstrably not ended by it (all ran to an answer or to the client's timeout)
+				aborted := false
+				for _, x := range append([]*Exchange{p.XBase}, p.XDelta...) {
+					if x.Rec.Begun && x.Rec.Outcome == "ctx_done" && (sc.Timeout == 0 || x.Rec.TReturn.Sub(x.Rec.TBegin) < sc.Timeout) {
+						aborted = true
+					}
+				}
+				if aborted {
+					continue
+				}
+			}
+			peerRequested = true
+			if _, ok, fd, _ := downloads(p); !ok || !shapeClear || (len(urls) > 0 && fd == nil) {
+				peerDownloadFailed = true
+			}
+		}
+		if peerDownloadFailed {
+			serverHealthy = false
+			rc.st.Probes["c18_failure_explained_by_overlapping_callers_failed_download"]++
+		}
 		cacheFine := fo.NoCache || fo.Discard || ((get == nil || get.Outcome != "error") && (set == nil || set.Outcome != "error"))
 		if serverHealthy && cacheFine {
 			switch {
@@ -664,7 +885,7 @@ func evalC18(sc *c18Scenario, obs *c18Obs, rc *ruleCtx) {
 		}
 		if get != nil && get.Outcome == "miss" {
 			rc.anteTrue("C18.F6")
-			if !fo.XBase.Rec.Begun && urlContactable(w.baseURL) && sc.URLKind == UNormal {
+			if !fo.XBase.Rec.Begun && !peerRequested && urlContactable(w.baseURL) && sc.URLKind == UNormal {
 				// a miss (however the cache wraps the sentinel) must lead to a
 				// download, not to an error before anything was requested
 				rc.fail("C18.F6", "miss_is_error_without_download", fmt.Sprintf("%s: the cache reported a miss and Fetch failed without requesting the CRL at all: %v", tag, fo.Err))
@@ -673,10 +894,14 @@ func evalC18(sc *c18Scenario, obs *c18Obs, rc *ruleCtx) {
 		if get != nil && get.Outcome == "hit" {
 			rc.anteTrue("C18.F2")
 			rc.st.Probes["c18_fetch_failed_after_cache_hit"]++
-			if !fo.XBase.Rec.Begun && urlContactable(w.baseURL) && sc.URLKind == UNormal {
+			if !fo.XBase.Rec.Begun && !peerRequested && urlContactable(w.baseURL) && sc.URLKind == UNormal {
 				// the entry was neither served (if still good) nor refreshed (if not)
 				rc.fail("C18.F2", "cached_entry_neither_served_nor_refreshed", fmt.Sprintf("%s: the cache returned an entry without error, yet Fetch failed without serving it or requesting the CRL at all: %v", tag, fo.Err))
 			}
+		}
+		if fo.NoCache && !fo.XBase.Rec.Begun && !peerRequested && urlContactable(w.baseURL) && sc.URLKind == UNormal {
+			rc.anteTrue("C18.F1")
+			rc.fail("C18.F1", "failed_without_requesting", fmt.Sprintf("%s: Fetch failed although neither it nor an uncancelled overlapping call requested the CRL: %v", tag, fo.Err))
 		}
 		if baseOK && shapeClear && len(urls) > 0 && firstDelta == nil {
 			rc.anteTrue("C18.F4")
@@ -702,10 +927,20 @@ func describeC18(sc *c18Scenario) any {
 			s += fmt.Sprintf("(base=%v,delta=%v)", op.PubBase, op.PubDelta)
 		case OpTearCache:
 			s += fmt.Sprintf("(%d)", op.TearKind)
+		case OpFetchConc:
+			var ms []string
+			for k, m := range op.Conc {
+				var df []string
+				for _, f := range m.DeltaFault {
+					df = append(df, f.String())
+				}
+				ms = append(ms, fmt.Sprintf("caller%d@+%dms(base_fault=%s delta_faults=%v get=%d set=%d cancel=%d@%dms)", k+1, m.StartMs, m.BaseFault, df, m.GetPlan, m.SetPlan, m.CancelKind, m.CancelMs))
+			}
+			s += fmt.Sprintf("(%s; publish_at=%dms base=%v delta=%v)", strings.Join(ms, ", "), op.PubAtMs, op.PubBase, op.PubDelta)
 		}
 		ops = append(ops, s)
 	}
-	return map[string]any{"cache_wraps_miss": sc.WrapMiss, "no_cache": sc.NoCache, "discard_cache_error": sc.Discard, "url_kind": urlKindNames[sc.URLKind], "freshest_shape": sc.FrShape, "delta_locations": sc.NDelta,
+	return map[string]any{"cache_wraps_miss": sc.WrapMiss, "cache_refuses_done_context": sc.CtxAware, "no_cache": sc.NoCache, "discard_cache_error": sc.Discard, "url_kind": urlKindNames[sc.URLKind], "freshest_shape": sc.FrShape, "delta_locations": sc.NDelta,
 		"base_validity_s": sc.BaseValidS, "delta_validity_s": sc.DeltaValidS, "timeout_ms": sc.Timeout.Milliseconds(), "ops": ops}
 }
 
@@ -730,8 +965,19 @@ func runC18(t *Tape, st *Stats, tier string) *RunResult {
 		evalC18(sc, obs, rc)
 	}
 	fired := 0
+	var flat []c18Op
 	for _, op := range sc.Ops {
 		st.Probes["c18_op_"+c18OpNames[op.Kind]]++
+		flat = append(flat, op)
+		if op.Kind == OpFetchConc {
+			fired++
+			flat = append(flat, op.Conc...)
+			if op.PubAtMs >= 0 {
+				st.Probes["c18_publish_during_concurrent_fetches"]++
+			}
+		}
+	}
+	for _, op := range flat {
 		if op.Kind == OpFetch {
 			if op.BaseFault.Kind != 0 {
 				st.Faults[faultNames[op.BaseFault.Kind]]++
